@@ -121,7 +121,8 @@ def _lz(f):
     return lambda *a, **k: list(f(*a, **k))
 
 _PURE_METHODS = {
-    bytes: {"startswith", "endswith", "hex", "decode", "lstrip", "rstrip", "strip", "find", "index", "count", "join"},
+    bytes: {"startswith", "endswith", "hex", "decode", "lstrip", "rstrip", "strip", "find", "rfind", "index", "count", "join", "ljust", "rjust", "zfill", "center", "split", "rsplit",
+            "replace", "partition", "rpartition", "upper", "lower", "isdigit", "isalpha", "isalnum"},
     str: {"startswith", "endswith", "lower", "upper", "strip", "lstrip", "rstrip", "find", "rfind", "index", "encode", "split", "rsplit", "splitlines", "partition", "rpartition", "count",
           "isdigit", "isalpha", "isalnum", "islower", "isupper", "isspace", "isidentifier", "replace", "format", "join", "zfill", "title", "capitalize", "casefold", "swapcase", "ljust", "rjust"},
     list: {"index", "count", "copy", "pop", "append", "extend", "insert", "remove", "clear", "reverse", "sort"},
